@@ -41,6 +41,7 @@ Has(f, k) == k \in DOMAIN f
 Get(f, k) == IF k \in DOMAIN f THEN f[k] ELSE Zero
 Put(f, k, v) == [x \in DOMAIN f \cup {k} |-> IF x = k THEN v ELSE f[x]]
 
+Rmws == {"fetch_add", "fetch_sub", "fetch_or", "fetch_and", "swap", "cas"}
 Acquires(ord) == ord \in {"acq", "acqrel", "sc"}
 Releases(ord) == ord \in {"rel", "acqrel", "sc"}
 
@@ -95,9 +96,9 @@ Step ==
                  \* an access to an entry's publication flag touches the bucket memory, whose non-atomic
                  \* initialisation must happen-before it
                  F == IF e.loc = "active" THEN ReadFails(mrun, <<"bucketmem", e.base>>, IF Acquires(ord) /\ ~(e.op = "store") THEN Join(c, Get(mrun.rel, a)) ELSE c) ELSE {}
-                 cAcq == IF (isLoad \/ e.op \in {"fetch_add", "cas"}) /\ Acquires(ord) /\ Has(mrun.rel, a) THEN Join(c, mrun.rel[a]) ELSE c
+                 cAcq == IF (isLoad \/ e.op \in Rmws) /\ Acquires(ord) /\ Has(mrun.rel, a) THEN Join(c, mrun.rel[a]) ELSE c
                  rel2 == IF e.op = "store" THEN (IF Releases(ord) THEN Put(mrun.rel, a, cAcq) ELSE [x \in DOMAIN mrun.rel \ {a} |-> mrun.rel[x]])
-                         ELSE IF e.op \in {"fetch_add"} \/ (e.op = "cas" /\ e.ok)
+                         ELSE IF e.op \in (Rmws \ {"cas"}) \/ (e.op = "cas" /\ e.ok)
                               THEN (IF Releases(ord) THEN Put(mrun.rel, a, Join(Get(mrun.rel, a), cAcq)) ELSE mrun.rel)
                          ELSE mrun.rel IN
              /\ Report(mrun, F, e)
